@@ -8,14 +8,14 @@ use crate::{
 pub fn exec(db: &dyn IndexDatabase) -> HashMap<FileId, Vec<Diagnostic>> {
     let mut diagnostic_list = Vec::new();
 
+    // syntax errors of every file of the workspace, not only of the root
     let source_root = db.source_root();
-    let parse = db.parse(source_root.root());
-    diagnostic_list.extend(parse.errors().iter().map(|err| {
-        Diagnostic::new(
-            FileRange::new(source_root.root(), err.range),
-            err.message.to_string(),
-        )
-    }));
+    for file_id in source_root.iter_files() {
+        let parse = db.parse(file_id);
+        diagnostic_list.extend(parse.errors().iter().map(|err| {
+            Diagnostic::new(FileRange::new(file_id, err.range), err.message.to_string())
+        }));
+    }
 
     let index = db.index();
     diagnostic_list.extend(index.diagnostics().iter().cloned());
